@@ -22,6 +22,7 @@ ASSUMPTIONS = ["vf/ref/bech32_ref.py transcribes the BIP173/BIP350 reference dec
                "only the HRPs bc, tb, bcrt are 'supported networks'"]
 OBLIGATIONS = {
     "concurrent_calls": "interleavings of two concurrent calls (single-case checks in two threads, cold and after warm-up calls)",
+    "long_history": "operations executed in one long history (>= 1000 distinct operations, forward / forward / reverse)",
     "history_sequences": "operation sequences (non-initial process states) explored",
     "short_program_2_5": "a v1+ program of 2..5 bytes round-tripped", "all_zero_32": "an all-zero 32-byte program round-tripped",
     "nonalphabet_version_char": "a non-alphabet character in the version position", "data_part_7_chars": "a 7-character data part with valid checksum",
@@ -300,6 +301,8 @@ def jobs(tier, seed):
            {"name": "vectors", "part": "vectors"}]
     from vf.runner import seq_jobs
     js += seq_jobs(2, weight=2)
+    from vf.runner import long_jobs
+    js += long_jobs()
     from vf.runner import concur_jobs
     js += concur_jobs(len(CONCUR_SCEN) - (1 if tier == "quick" else 0))
     return js
@@ -311,6 +314,9 @@ def run_job(job):
         ops = seq_ops(dict(job, shard=[0, 1]))
         scens = [{"threads": [ops[i] for i in sc[0]], "warm": [ops[i] for i in sc[1]], "post": [ops[i] for i in (sc[2] if len(sc) > 2 else ())]} for sc in CONCUR_SCEN]
         return run_concur_job(job, scens, run_case, PROPERTY, CONCUR_FILES)
+    if job["part"] == "longhist":
+        from vf.runner import run_long_job, default_long_ops
+        return run_long_job(job, default_long_ops(seq_ops, job), run_case)
     if job["part"] == "seq":
         from vf.runner import run_seq_job
         return run_seq_job(job, seq_ops(job), run_case, depth=3 if job["tier"] == "quick" else 4)
